@@ -49,7 +49,7 @@ func (c *Check) middleware(id string, outer *ssa.Function, what string) *MW {
 	m.Family = WithAnon(m.Inner)
 	for _, f := range m.Family {
 		for _, cl := range CallsIn(f) {
-			if cl.Common().IsInvoke() || cl.Common().StaticCallee() != nil {
+			if cl.Common().IsInvoke() || CalleeFn(cl.Common()) != nil {
 				continue
 			}
 			if AllOrigins(cl.Common().Value, IsParam(m.H)) {
